@@ -165,6 +165,7 @@ def contract(file, qualname, serves=()):
 
 GHOST_SCHEMA = {}     # name -> Spec, filled by spec modules
 GHOST_LOCAL = set()   # ghost variables changed only by one external (never havocked by contract application)
+GHOST_LOGS = set()    # write-only logs (console output): arbitrary at every loop head, whatever the loop does
 
 
 # ------------------------------------------------------------------------------ clause evaluation
@@ -519,9 +520,16 @@ class Verifier:
             return
         # a universally quantified goal is proved for fresh constants (skolemisation of the negated goal): sound, and
         # it leaves the solvers a quantifier-free goal
-        while goal.op == "forall":
-            bvs, body = goal.args
-            goal = tm.substitute(body, {bv: tm.Fresh("sk." + str(bv.val), bv.sort) for bv in bvs})
+        def skolemise(t):
+            if t.op == "forall":
+                bvs, body = t.args
+                return skolemise(tm.substitute(body, {bv: tm.Fresh("sk." + str(bv.val), bv.sort) for bv in bvs}))
+            if t.op == "and":
+                return tm.And(*[skolemise(a) for a in t.args])
+            if t.op == "=>":
+                return tm.Implies(t.args[0], skolemise(t.args[1]))
+            return t
+        goal = skolemise(goal)
         if goal.op == "bool" and goal.val:
             self.counter["trivial"] = self.counter.get("trivial", 0) + 1
             return
@@ -996,12 +1004,22 @@ class Verifier:
                         floor=None):
         fr = st.frames[-1]
         head_cells = {}
+        havocked_ghost = set()
+        if self.loop_touches_ghost(node, st):
+            havocked_ghost = set(cls.ghost_frame if cls.ghost_frame is not None
+                                 else [n for n in self.ghost_schema if n not in GHOST_LOCAL])
         if floor is not None:
             head_cells = {oid: (list(c) if isinstance(c, list) else dict(c)) for oid, c in st.heap.items() if oid <= floor}
         self_v = fr.locals.get("self")
         self_oid = self_v.oid if isinstance(self_v, Obj) else None
         if self.loop_touches_ghost(node, st):
             self.havoc_ghost(st, cls)
+        for gname in GHOST_LOGS:
+            if gname in self.ghost_schema and gname not in havocked_ghost:
+                (_, gv), = list(self.make(st, self.ghost_schema[gname], "g." + gname))
+                st.ghost[gname] = gv
+                havocked_ghost.add(gname)
+        head_ghost = dict(st.ghost)
         if is_for:
             i_t = tm.Fresh(idx_name, INT)
             fr.locals[idx_name] = Sym("int", i_t)
@@ -1043,6 +1061,10 @@ class Verifier:
             for s3, o in bodies:
                 if o[0] in ("normal", "continue"):
                     self.check_loop_frame(head_cells, s3, cls, ordinal, self_oid)
+                    for gname, gv in head_ghost.items():
+                        if gname not in havocked_ghost and not self._same_value(gv, s3.ghost.get(gname)):
+                            raise Unsupported("loop %d of %s changes ghost state '%s' that is not arbitrary at the loop head "
+                                              "(declare it in the contract's ghost_frame)" % (ordinal, cls.qualname, gname))
                     i_next = None
                     if is_for:
                         i_next = as_value("int", tm.Add(s3.frames[-1].locals[idx_name].term, tm.Int(1)))
